@@ -67,6 +67,8 @@ pub async fn run_case(backend: &str, seed: u64, rep: &mut Report) -> anyhow::Res
     let key: AccessKey = w.password.clone().into();
     { let mut a = w.devices[0].lock().await; crate::upgrade::history(&mut a, seed, true).await?; }
     let before = { let mut a = w.devices[0].lock().await; snapshot(&mut a).await.map_err(|e| anyhow::anyhow!(e))? };
+    let files_before = { let a = w.devices[0].lock().await; crate::upgrade::attachments(&a).await.map_err(|e| anyhow::anyhow!(e))? };
+    rep.count(&format!("{backend}:attachments:{}", files_before.len()));
     let src_target = { let a = w.devices[0].lock().await; a.backend_target().await };
     let zip = w.tmp.path().join("backup.zip");
     export_backup_archive(&zip, &src_target, &w.account_id).await?;
@@ -85,6 +87,12 @@ pub async fn run_case(backend: &str, seed: u64, rep: &mut Report) -> anyhow::Res
                         if after != before {
                             let what = if after.keys().ne(before.keys()) { "folders" } else { "contents" };
                             rep.spec_fail(&format!("c18-restored-account-differs-{what}-{backend}"), json!({"case_seed": seed, "backend": backend, "before": before.len(), "after": after.len()}), "the account restored from its own backup archive serves different folders / secrets");
+                        }
+                        match crate::upgrade::attachments(&r).await {
+                            Ok(files_after) => if files_after != files_before {
+                                rep.spec_fail(&format!("c18-restored-account-differs-attachments-{backend}"), json!({"case_seed": seed, "backend": backend, "before": files_before, "after": files_after}), "the account restored from its own backup archive serves different attachments");
+                            },
+                            Err(e) => rep.spec_fail(&format!("c18-restored-account-attachments-unreadable-{backend}"), json!({"case_seed": seed}), &e),
                         }
                         let _ = r.sign_out().await;
                     }
@@ -137,6 +145,23 @@ pub async fn run_case(backend: &str, seed: u64, rep: &mut Report) -> anyhow::Res
         e.push((ev.to_string(), b"escaped".to_vec()));
         variants.push((format!("extra-entry:{}", ev), e));
     }
+    // names that start like a real entry (so that prefix guards accept them) and then climb out: for one entry
+    // of each top-level directory, every directory prefix of its name followed by runs of `..`
+    {
+        let mut seen_top: std::collections::BTreeSet<String> = Default::default();
+        for (name, _) in entries.iter() {
+            let parts: Vec<&str> = name.split('/').collect();
+            if parts.len() < 2 || !seen_top.insert(parts[0].to_string()) { continue; }
+            for cut in 1..parts.len() {
+                for ups in [cut + 1, cut + 4, cut + 7] {
+                    let ev = format!("{}/{}escape-{cut}-{ups}.txt", parts[..cut].join("/"), "../".repeat(ups));
+                    let mut e = entries.clone();
+                    e.push((ev.clone(), b"escaped".to_vec()));
+                    variants.push((format!("extra-entry-climbing:{}", ev), e));
+                }
+            }
+        }
+    }
     if let Some(i) = entries.iter().position(|(n, _)| n != "sos-manifest.json") {
         let mut e = entries.clone(); let dup = e[i].clone(); e.push(dup);
         variants.push(("duplicate-entry".into(), e));
@@ -182,6 +207,45 @@ pub async fn run_case(backend: &str, seed: u64, rep: &mut Report) -> anyhow::Res
             }
         }
     }
+    // 3. raw corruption of the zip container itself (C15): the reader must answer with an error or an account
+    {
+        let raw = std::fs::read(&zip)?;
+        let n = raw.len();
+        let mut muts: Vec<(&str, Vec<u8>)> = vec![("empty", vec![]), ("one-byte", vec![0x50])];
+        for i in 0..24 { let cut = if i < 12 { n.saturating_sub(1 + i * 7) } else { rng.below(n as u64) as usize }; muts.push(("truncated", raw[..cut].to_vec())); }
+        for i in 0..48 { let mut x = raw.clone(); let p = if i < 24 { n - 1 - rng.below(n.min(400) as u64) as usize } else { rng.below(n as u64) as usize }; x[p] ^= 1 << rng.below(8); muts.push((if i < 24 { "bitflip-central-directory" } else { "bitflip" }, x)); }
+        for _ in 0..8 { let a = rng.below(n as u64) as usize; let b = rng.below(n as u64) as usize; let mut x = raw[..a].to_vec(); x.extend_from_slice(&raw[b..]); muts.push(("splice", x)); }
+        for _ in 0..8 { let mut x = raw.clone(); let p = rng.below((n - 3) as u64) as usize; x[p..p + 4].copy_from_slice(&(*rng.pick(&[0xffff_ffffu32, 0x7fff_ffff, 0, 0x0100_0000])).to_le_bytes()); muts.push(("length-edit", x)); }
+        for (k, (kind, bytes)) in muts.into_iter().enumerate() {
+            let hz = w.tmp.path().join(format!("raw-{k}.zip"));
+            std::fs::write(&hz, &bytes)?;
+            let (t, dir) = fresh_target(&arena, backend, &format!("restore-r{k}")).await?;
+            let arena_before = tree(&arena);
+            let t_before = tree(&dir);
+            let fut = std::panic::AssertUnwindSafe(import_backup_archive(&hz, &t));
+            let res = tokio::time::timeout(std::time::Duration::from_secs(30), futures::FutureExt::catch_unwind(fut)).await;
+            let arena_after = tree(&arena);
+            let t_after = tree(&dir);
+            rep.case(&format!("{backend}:{seed}:raw:{kind}:{k}"), true);
+            rep.count(&format!("{backend}:raw-{kind}:{}", match &res { Ok(Ok(Ok(_))) => "accepted", Ok(Ok(Err(_))) => "rejected", Ok(Err(_)) => "panic", Err(_) => "hang" }));
+            match &res {
+                Err(_) => rep.spec_fail(&format!("decode-hangs:archive-{backend}"), json!({"case_seed": seed, "kind": kind, "len": bytes.len()}), "importing a corrupted archive did not finish within 30 s"),
+                Ok(Err(_)) => { let site = PANIC_SITE.lock().unwrap().clone(); rep.spec_fail(&format!("decode-panics:archive:{}", site.0), json!({"case_seed": seed, "backend": backend, "kind": kind, "len": bytes.len(), "panic": site.1}), "importing a corrupted archive panicked") }
+                Ok(Ok(Err(_))) => {
+                    let created: Vec<&String> = t_after.keys().filter(|p| t_before.get(*p) != t_after.get(*p)).collect();
+                    // attachment blobs are extracted after the manifest has been verified; a container error in a later
+                    // blob entry stops there, which the property does not speak about (no manifest checksum covers blobs):
+                    // only vaults, logs and identity files count as "an account"
+                    if backend == "fs" && created.iter().any(|p| p.contains(&w.account_id.to_string()) && !p.contains("/files/") && !p.contains("/blobs/")) { rep.spec_fail(&format!("c18-rejected-archive-left-account-files-raw-{kind}-{backend}"), json!({"case_seed": seed, "files": created.iter().take(4).collect::<Vec<_>>()}), "a rejected (corrupted) archive left account files in the import target"); }
+                }
+                Ok(Ok(Ok(_))) => {}
+            }
+            let outside: Vec<&String> = arena_after.keys().filter(|p| !p.starts_with(&format!("restore-r{k}/")) && arena_before.get(*p) != arena_after.get(*p)).collect();
+            if !outside.is_empty() { rep.spec_fail(&format!("c18-archive-entry-escapes-target-{backend}"), json!({"case_seed": seed, "kind": kind, "outside": outside.iter().take(3).collect::<Vec<_>>()}), "importing a corrupted archive wrote outside the import target directory"); }
+            let _ = std::fs::remove_file(&hz);
+            let _ = std::fs::remove_dir_all(&dir);
+        }
+    }
     if seed % 3 == 0 { rep.sample(json!({"backend": backend, "entries": entries.iter().map(|e| e.0.clone()).collect::<Vec<_>>(), "variants": variants.iter().map(|v| v.0.clone()).collect::<Vec<_>>()})); }
     Ok(())
 }
@@ -210,7 +274,16 @@ fn sanitize_corr(rep: &mut Report, seed: u64, n: usize, ops: &mut Vec<String>, i
     }
 }
 
+/// where the last panic happened: (crate/src/.../file.rs without the line, message with the line)
+static PANIC_SITE: std::sync::Mutex<(String, String)> = std::sync::Mutex::new((String::new(), String::new()));
+
 pub fn run(cli: &Cli) {
+    std::panic::set_hook(Box::new(|info| {
+        let file = info.location().map(|l| l.file().to_string()).unwrap_or_default();
+        let parts: Vec<&str> = file.split('/').collect();
+        let tail = parts[parts.len().saturating_sub(4)..].join("/");
+        *PANIC_SITE.lock().unwrap() = (tail, info.to_string().chars().take(300).collect());
+    }));
     let property = cli.extra.get("property").cloned().unwrap_or("C18".into());
     let mut rep = Report::new(&property, "archive", cli.seed, &cli.tier);
     { let mut ops = vec![]; let mut imp = vec![]; sanitize_corr(&mut rep, cli.seed, if cli.tier == "thorough" { 20000 } else { 2000 }, &mut ops, &mut imp); rep.diff_streams("corr:archive/sanitize", &ops, &imp); }
